@@ -423,6 +423,10 @@ def run(rep, ix, tier):
     check_cursor(rep, ix)
     check_split(rep, ix)
     check_map(rep, ix)
+    # attribute values are decoded by the RP66V1 representation-code readers (pRepCode.py is an anchor): same rule as C07
+    from . import C07
+    C07.run_rp66(rep, ix)
+    rep.floor('R-C07-VALUE', 25)
     rep.floor('R-C03-CD', 30)
     rep.floor('R-C03-ORDER', 25)
     rep.floor('R-C03-CURSOR', 10)
